@@ -8,6 +8,7 @@ package c07
 
 import (
 	"bytes"
+	"fmt"
 	"math/big"
 	"testing"
 
@@ -218,6 +219,117 @@ func TestVerifLowOrder(t *testing.T) {
 					snd, _ := suite.NewSender(pkS, nil)
 					_, _, err, pn := senderSetup(snd, setupArgs{mode: ref.ModeAuth, skS: S.sk}, ikmE)
 					verdict("pkR-auth", err, pn)
+				}
+			}
+		}
+	}
+}
+
+const monNonCanon = "TestVerifNonCanonicalPeerKeys"
+
+// TestVerifNonCanonicalPeerKeys: X25519 / X448 public keys have more than
+// one octet string per u-coordinate (bit 255 of X25519 is ignored by the
+// function, values >= p are reduced).  RFC 9180 hashes the octets of pkR /
+// pkS as they are (SerializePublicKey of a deserialized X25519 key is the
+// same string), so a sender given such a string for pkR, and a receiver
+// given one for pkS, derive exactly the key schedule the reference derives
+// from those octets - and not the one of the canonical string.
+func TestVerifNonCanonicalPeerKeys(t *testing.T) {
+	lib.Mandatory("noncanonical-peer:sender-compared", "noncanonical-peer:receiver-compared")
+	for _, tg := range []struct {
+		k    kemDesc
+		size int
+	}{{kems[3], 32}, {kems[4], 56}} {
+		scheme := tg.k.id.Scheme()
+		p := new(big.Int).Sub(new(big.Int).Lsh(big.NewInt(1), 255), big.NewInt(19))
+		if tg.size == 56 {
+			p = new(big.Int).Lsh(big.NewInt(1), 448)
+			p.Sub(p, new(big.Int).Lsh(big.NewInt(1), 224))
+			p.Sub(p, big.NewInt(1))
+		}
+		for draw := 0; draw < lib.Scale(6, 60); draw++ {
+			r := lib.NewRng("c07/noncanon/"+tg.k.name, draw)
+			R := derive(scheme, r.Bytes(scheme.SeedSize()))
+			S := derive(scheme, r.Bytes(scheme.SeedSize()))
+			ikmE := r.Bytes(scheme.EncapsulationSeedSize())
+			info := r.Bytes(r.Intn(20))
+			psk, pskID := r.Bytes(32), r.Bytes(8)
+			kdf, aead := kdfs[draw%3], aeads[(draw/3)%3]
+			suite := hpke.NewSuite(tg.k.id, kdf, aead)
+			rsuite := ref.Suite{KEM: uint16(tg.k.id), KDF: uint16(kdf), AEAD: uint16(aead)}
+			// second strings for u-coordinates
+			var forms [][]byte
+			if tg.size == 32 {
+				a := lib.Clone(R.pkb)
+				a[31] |= 0x80
+				forms = append(forms, a)
+				for _, u := range []int64{2, 9, 18} { // u + p < 2^255
+					forms = append(forms, leBytes(new(big.Int).Add(p, big.NewInt(u)), 32))
+					b := leBytes(big.NewInt(u), 32)
+					b[31] |= 0x80
+					forms = append(forms, b)
+				}
+			} else {
+				for _, u := range []int64{2, 5, 1000} { // u + p < 2^448
+					forms = append(forms, leBytes(new(big.Int).Add(p, big.NewInt(u)), 56))
+				}
+			}
+			for fi, form := range forms {
+				for mode := byte(0); mode < 4; mode++ {
+					c := cellID{tg.k, kdf, aead, mode}
+					wit := map[string]any{"peer_key_octets": lib.Hex(form), "ikmE": lib.Hex(ikmE), "seedS_sk": lib.Hex(S.skb), "info": lib.Hex(info)}
+					a := setupArgs{mode: mode}
+					var p1, p2 []byte
+					if isPSK(mode) {
+						a.psk, a.pskID, p1, p2 = psk, pskID, psk, pskID
+					}
+					lib.Case([]byte("noncanon"), []byte(c.String()), form, ikmE, []byte{byte(fi)})
+					// (1) sender: pkR given as the non-canonical string
+					pkR, uerr := scheme.UnmarshalBinaryPublicKey(lib.Clone(form))
+					wantEnc, wantCtx, werr := ref.SetupS(rsuite, mode, form, info, p1, p2, S.skb, ikmE)
+					if uerr == nil && werr == nil {
+						a.skS = S.sk
+						snd, _ := suite.NewSender(pkR, info)
+						enc, sealer, err, pn := senderSetup(snd, a, ikmE)
+						lib.Count("noncanonical-peer:sender-compared")
+						if pn != nil || err != nil {
+							lib.Violation("C07:sender-setup-error", monNonCanon, c.detail("peer_key_octets", form, "err", err, "panic", fmt.Sprint(pn != nil)))
+						} else if !lib.Eq(enc, wantEnc) {
+							lib.Violation("C07:enc:"+tg.k.name, monNonCanon, c.detail("peer_key_octets", form, "got", enc, "want", wantEnc))
+						} else {
+							compareContext(monNonCanon, c, 0, sealer, wantCtx, wit)
+						}
+					} else if uerr == nil {
+						lib.Count("noncanonical-peer:reference-refuses")
+					} else {
+						lib.Count("noncanonical-peer:refused-at-decoding")
+					}
+					// (2) receiver, auth modes: the honest sender S, whose key the
+					// receiver is given as a second string for the same u
+					if !isAuth(mode) || fi != 0 {
+						continue
+					}
+					formS := lib.Clone(S.pkb)
+					formS[31] |= 0x80
+					encH, _, herr := ref.SetupS(rsuite, mode, R.pkb, info, p1, p2, S.skb, ikmE)
+					pkS, uerr := scheme.UnmarshalBinaryPublicKey(lib.Clone(formS))
+					if herr != nil || uerr != nil {
+						continue
+					}
+					wantR, werr := ref.SetupR(rsuite, mode, encH, R.skb, info, p1, p2, formS)
+					if werr != nil {
+						continue
+					}
+					a.pkS = pkS
+					rcv, _ := suite.NewReceiver(R.sk, info)
+					op, err, pn := receiverSetup(rcv, a, encH)
+					lib.Count("noncanonical-peer:receiver-compared")
+					if pn != nil || err != nil {
+						lib.Violation("C07:receiver-setup-error", monNonCanon, c.detail("pkS_octets", formS, "err", err, "panic", fmt.Sprint(pn != nil)))
+						continue
+					}
+					wit["pkS_octets"] = lib.Hex(formS)
+					compareContext(monNonCanon, c, 1, op, wantR, wit)
 				}
 			}
 		}
